@@ -60,7 +60,8 @@ def sweep(case, errnos, check, mode="th", collect=None):
                     collect.append((names[i], en, persistent, r.outcome[0], repr(sorted(info["vis"].items(), key=repr)),
                                     tuple(sorted(x for x, _ in af.residue))))
                 for what, det in check(info):
-                    sig = {"case": label, "site": names[i], "errno": en, "mode": "persistent" if persistent else "one-off", "what": what}
+                    sig = {"case": label, "site": names[i].rsplit("#", 1)[0], "occurrence": int(names[i].rsplit("#", 1)[1]),
+                           "errno": en, "mode": "persistent" if persistent else "one-off", "what": what}
                     det = dict(det)
                     det.update({"call": list(op), "state": state, "site": i, "site_op": list(sop), "errno": en,
                                 "persistent": persistent, "outcome": r.outcome[0]})
